@@ -1,6 +1,7 @@
 import FractopoModel.Model.Validation
 import FractopoModel.Lemmas.Underlap
 import FractopoModel.Generated.ValidationPass
+import FractopoModel.Generated.RunValidation
 /-!
 # C13 — validation is pure and repeatable (history-independence of the orchestration)
 
@@ -188,5 +189,81 @@ theorem C13_underlap_attribute {L P : Type} (endpoints_of : L → List P) (dist 
       · simp only [ho, Bool.false_eq_true, if_false] at h; cases h
     | some b =>
       cases b <;> simp only [hu] at h ⊢ <;> cases h <;> simp
+
+/-! ### the frame-level plumbing of `run_validation` (regenerated) -/
+
+/-- how the regenerated function's (tag, rows) result reads as a model outcome -/
+def encode : Outcome G → String × List (G × List String)
+  | .untouched => ("untouched", [])
+  | .emptyArea rows => ("emptyarea", rows)
+  | .validated rows => ("validated", rows)
+
+theorem stale_columns_loop {V : Type} (errc errct : String) (has_col : String → Bool) (major all_ : List V) (req : V → Bool) (ae : List G → Bool) (ee : String)
+    (pass_ : List V → List G → List (List String) × List G) (recur : List G → String × List (G × List String)) (fp : Bool) (ch : Option (List V)) (al : Bool)
+    (l : List String) (fr : List G) :
+    Gen.run_validation_frame_loop1 errc errct has_col major all_ req ae ee pass_ recur fp ch al l fr = fr := by
+  induction l generalizing fr with
+  | nil => rfl
+  | cons c rest ih =>
+    rw [Gen.run_validation_frame_loop1]
+    by_cases h : has_col c = true <;> simp [h, ih]
+
+theorem passRows_length' (O : Oracle G) (cfg : Cfg) (vs : List Validator) (frame : List G) (rows : List (G × Nat)) (glob : String) :
+    (passRows O cfg vs frame rows glob).1.length = rows.length := by
+  induction rows generalizing glob with
+  | nil => rfl
+  | cons r rest ih => obtain ⟨g, idx⟩ := r; simp [passRows, ih]
+
+theorem zip_fst_snd {α β : Type} (l : List (α × β)) : List.zip (l.map (·.1)) (l.map (·.2)) = l := by
+  induction l with
+  | nil => rfl
+  | cons a as ih => simp [ih]
+
+/-- **The regenerated `run_validation` IS the model's `Tval.run`.** The frame-level plumbing of `run_validation` is regenerated
+(`Gen.run_validation_frame`: stale error columns dropped, MAJOR validators in the first pass and ALL in the second unless validators
+were chosen, the empty-frame exit, the EMPTY TARGET AREA exit when `allow_empty_area` is off, the pass, the recursive call for the
+second pass on the first pass's geometries with `allow_empty_area` back at its default), its row loop is the regenerated
+`Gen.validation_pass` with the regenerated `_validate` as the step (`C13_generated_pass`, `C09_generated_validate_step`), and the
+recursion is unfolded once (the recursive call passes `first_pass=False`, which never recurses). For every oracle, configuration,
+frame and value of the class attribute the result is `Tval.run`'s -- so `C09_one_result_per_row`, `C09_empty_area`,
+`C09_errors_documented`, `C13_global_irrelevant`, `C13_history_irrelevant`, `C13_rerun` are theorems about regenerated code. -/
+theorem C13_generated_run_validation (O : Oracle G) (cfg : Cfg) (isLine : G → Bool) (g0 glob errc errct : String) (has_col : String → Bool)
+    (req : Validator → Bool) (areaEmpty : List G → Bool) (allowEmpty : Bool) (frame : List G) :
+    let passG : List Validator → List G → List (List String) × List G := fun vs fr => Gen.validation_pass (stepOf O cfg fr g0) isLine fr vs
+    let second : List G → String × List (G × List String) := fun fr =>
+      Gen.run_validation_frame errc errct has_col cfg.major cfg.all req areaEmpty cfg.emptyAreaError passG (fun _ => ("untouched", [])) fr false cfg.chosen true
+    Gen.run_validation_frame errc errct has_col cfg.major cfg.all req areaEmpty cfg.emptyAreaError passG second frame true cfg.chosen allowEmpty
+      = encode (run O cfg allowEmpty (areaEmpty frame) frame glob).1 := by
+  intro passG second
+  unfold Gen.run_validation_frame run
+  simp only [stale_columns_loop]
+  have hval : ∀ (d : List Validator), (if (!(Option.isNone cfg.chosen)) = true then cfg.chosen.getD d else d) = cfg.chosen.getD d := by
+    intro d; cases cfg.chosen <;> simp
+  by_cases he : frame = []
+  · subst he; simp [encode]
+  · have hlen : ¬ frame.length = 0 := fun h => he (List.eq_nil_of_length_eq_zero h)
+    have hemp : frame.isEmpty = false := by cases frame with | nil => exact absurd rfl he | cons a b => rfl
+    simp only [hlen, decide_false, Bool.false_eq_true, if_false, hemp]
+    by_cases hae : (!allowEmpty && areaEmpty frame) = true
+    · simp [hae, encode]
+    · simp only [hae, Bool.false_eq_true, if_false, if_true, hval]
+      -- first pass
+      have h1 := C13_generated_pass O cfg frame g0 glob isLine (cfg.chosen.getD cfg.major)
+      simp only [passG, h1]
+      -- second pass, inside the recursive call
+      generalize hp1 : pass O cfg (cfg.chosen.getD cfg.major) frame glob = p1
+      obtain ⟨r1, g1⟩ := p1
+      have hl1 : r1.length = frame.length := by
+        have := passRows_length' O cfg (cfg.chosen.getD cfg.major) frame frame.zipIdx glob
+        unfold pass at hp1
+        rw [hp1] at this
+        simpa using this
+      have hne : ¬ (r1.map (·.1)).length = 0 := by rw [List.length_map, hl1]; exact hlen
+      simp only [second]
+      unfold Gen.run_validation_frame
+      simp only [stale_columns_loop, hne, decide_false, Bool.false_eq_true, if_false, Bool.not_true, Bool.false_and, hval]
+      have h2 := C13_generated_pass O cfg (r1.map (·.1)) g0 g1 isLine (cfg.chosen.getD cfg.all)
+      show ("validated", (passG (cfg.chosen.getD cfg.all) (r1.map (·.1))).2.zip (passG (cfg.chosen.getD cfg.all) (r1.map (·.1))).1) = _
+      simp only [passG, h2, zip_fst_snd, encode]
 
 end C13
